@@ -240,6 +240,8 @@ def run_text(shard):
     rows += [('radical', s) for s in ('C[CH]C |^1:1|', '[CH3] |^1:0|', 'C[O] |^1:1|', 'CC(C)[CH2] |^1:3|', '[CH2]CC[CH2] |^1:0,3|', 'C1CC1[CH]C |^1:3|')]
     rows += [('multi', s) for s in ('[Na+].[Cl-]', 'CC(=O)[O-].[Na+]', 'CCO.CCO', 'C1CC1.CC.O', 'c1ccccc1.Cl', 'CC[NH3+].[Cl-].O')]
     rows += [('iso', s) for s in ('[13CH3]C', 'C[13CH2]C', '[2H]C([2H])C', 'C[15NH2]', '[18OH]C')]
+    # stereocentres carrying an isotopic hydrogen ATOM (kept as an atom by both toolkits): the hydrogen takes every position in the spellings of the other toolkit
+    rows += [('isoH', s) for s in ('[2H][C@](C)(O)CC', 'C[C@](O)([2H])CC', 'N[C@@]([2H])(C)C(=O)O', '[3H][C@](F)(Cl)Br', 'C[C@@]([2H])(O)c1ccccc1', 'C[C@]1([2H])CCCO1', 'F[C@]([2H])(Cl)[C@@]([2H])(F)Br')]
     rows += [('alternating', s) for s in ('C1=CC=C1', 'C1=CC=CC=CC=C1', 'C1=CC=CC=CC=CC=C1', 'C=C1C=CC(=C)C=C1', 'O=C1C=CC(=O)C=C1', 'C1=CC=C1C', 'C1=CC1', 'C1=CCC=CC1', 'C1=CC=CCC1')]
     rows += [('metal', s) for s in inputs.organometallics()[::4]]
     # fused, bridged, spiro and cage ring systems (those with a polyhedral skeleton fall under exclusion (ii) and are only counted)
